@@ -141,6 +141,15 @@ pub fn start(shared: &Arc<Shared>) {
     });
 }
 
+/// Run `f` with metering suspended on this thread (the harness's own rendering of a result must
+/// not be charged to the code under test).
+pub fn unmetered<T>(f: impl FnOnce() -> T) -> T {
+    let was = ST.with(|s| s.on.replace(false));
+    let r = f();
+    ST.with(|s| s.on.set(was));
+    r
+}
+
 /// Stop metering the current thread and return what was recorded since `start`/`lap`.
 pub fn stop() -> Stats {
     ST.with(|s| {
